@@ -40,6 +40,12 @@ OPERATIONS = {'op': ('integer', True, [('q', 'integer'), ('r', 'boolean')]),    
 EE = 'EE'
 ENUM = ('Color', ['Red', 'Green', 'Blue'])
 CONSTANT = ('K', 'TEN', 'integer', '10')
+# every enumeration type and every constant of the host.  Names are deliberately shared across namespaces: the
+# enumerator Red belongs to Color (first) and to Mode (second), the constant TEN to the groups K (integer) and L
+# (string), and the group L has a constant named like the enumerator Red -- a qualified name NS::name must be
+# resolved relative to NS
+ENUMS = [ENUM, ('Mode', ['Off', 'Red', 'On'])]
+CONSTANTS = [CONSTANT, ('L', 'TEN', 'string', 'ten'), ('L', 'Red', 'integer', '7')]
 # relationship number -> description
 RELS = {1: ('simple', 'A', 'B'), 2: ('reflexive', 'A', 'A'), 3: ('linked', 'A', 'B', 'C')}
 # phrase written at each end (the phrase used when navigating TO that end's class)
@@ -101,33 +107,42 @@ def build_host(m):
 
     host = Host(m)
 
-    # -- enumeration Color {Red, Green, Blue}, chained by R56 --------------------
-    s_dt = m.new('S_DT', Name=ENUM[0])
-    pe(s_dt, 3)
-    s_edt = m.new('S_EDT')
-    rel(s_edt, s_dt, 17)
-    prev = None
-    for name in ENUM[1]:
-        s_enum = m.new('S_ENUM', Name=name)
-        rel(s_enum, s_edt, 27)
-        if prev is not None:
-            rel(prev, s_enum, 56, 'precedes')
-        prev = s_enum
+    # -- enumerations Color {Red, Green, Blue} and Mode {Off, Red, On}, chained by R56 --------------------
+    for ename, enumerators in ENUMS:
+        s_dt = m.new('S_DT', Name=ename)
+        pe(s_dt, 3)
+        s_edt = m.new('S_EDT')
+        rel(s_edt, s_dt, 17)
+        prev = None
+        for name in enumerators:
+            s_enum = m.new('S_ENUM', Name=name)
+            rel(s_enum, s_edt, 27)
+            if prev is not None:
+                rel(prev, s_enum, 56, 'precedes')
+            prev = s_enum
     enums = m.select_many('S_ENUM')
     second = [e for e in enums if e.Name == ENUM[1][1]][0]
     first = [e for e in enums if e.Name == ENUM[1][0]][0]
     assert second.Previous_Enum_ID == first.Enum_ID, 'host: R56 chained the wrong way'
 
-    # -- constant group K::TEN ------------------------------------------------------
-    csp = m.new('CNST_CSP', InformalGroupName=CONSTANT[0])
-    pe(csp, 10)
-    syc = m.new('CNST_SYC', Name=CONSTANT[1])
-    lfsc = m.new('CNST_LFSC')
-    lsc = m.new('CNST_LSC', Value=CONSTANT[3])
-    rel(syc, dt(CONSTANT[2]), 1500)
-    rel(syc, csp, 1504)
-    rel(lfsc, syc, 1502)
-    rel(lsc, lfsc, 1503)
+    # -- constant groups K {TEN} and L {TEN, Red} ---------------------------------------
+    groups = {}
+    prev_syc = {}
+    for gname, cname, cty, cval in CONSTANTS:
+        if gname not in groups:
+            groups[gname] = m.new('CNST_CSP', InformalGroupName=gname)
+            pe(groups[gname], 10)
+        csp = groups[gname]
+        syc = m.new('CNST_SYC', Name=cname)
+        lfsc = m.new('CNST_LFSC')
+        lsc = m.new('CNST_LSC', Value=cval)
+        rel(syc, dt(cty), 1500)
+        rel(syc, csp, 1504)
+        rel(lfsc, syc, 1502)
+        rel(lsc, lfsc, 1503)
+        if gname in prev_syc:
+            rel(prev_syc[gname], syc, 1505, 'precedes')
+        prev_syc[gname] = syc
 
     # -- classes ----------------------------------------------------------------------
     objs, attrs, oids = {}, {}, {}
